@@ -607,6 +607,21 @@ func init() {
 		s.env().L[0].Closed = true
 		return ret(f, x, CtxV{})
 	})
+	reg(vp+"ClosePrefix", func(e *Exec, s *State, f *Frame, x *ssa.Call, a []Val) ([]*State, bool) {
+		name := a[0].(StrV).S
+		e.checkStoreName(s, name)
+		pre := e.toBytesV(s, a[1])
+		for _, l := range s.env().L {
+			np := map[string][]BytesV{}
+			for k, v := range l.ClosedPrefixes {
+				np[k] = v
+			}
+			np[name] = append(append([]BytesV{}, np[name]...), pre)
+			l.ClosedPrefixes = np
+		}
+		e.stats["closed-prefix:"+name]++
+		return nil, false
+	})
 	reg(vp+"EmptyCtx", func(e *Exec, s *State, f *Frame, x *ssa.Call, a []Val) ([]*State, bool) {
 		env := s.env()
 		env.NextCtx++
@@ -636,7 +651,13 @@ func init() {
 		env.MarkSupply = len(env.Supply)
 		env.MarkStores = map[string]int{}
 		for name, ents := range env.L[0].Stores {
-			env.MarkStores[name] = len(ents)
+			n := 0
+			for _, en := range ents {
+				if !en.Pre {
+					n++
+				}
+			}
+			env.MarkStores[name] = n // number of write entries so far (lazily discovered pre-state entries do not count)
 		}
 		return nil, false
 	})
@@ -679,7 +700,48 @@ func init() {
 		return ret(f, x, Sym{Bool: true, S: tOr(cs...)})
 	})
 	reg(vp+"EventCount", func(e *Exec, s *State, f *Frame, x *ssa.Call, a []Val) ([]*State, bool) {
-		return ret(f, x, intc(int64(len(s.env().Events))))
+		t := "0"
+		for _, ev := range s.env().Events {
+			t = tAdd(t, tIte(guardOf(ev), "1", "0"))
+		}
+		return ret(f, x, Sym{S: t})
+	})
+	// OnlyWritten(store, prefix, keys...): every store write since Mark under the prefix went to one of the given keys
+	reg(vp+"OnlyWritten", func(e *Exec, s *State, f *Frame, x *ssa.Call, a []Val) ([]*State, bool) {
+		name := a[0].(StrV).S
+		e.checkStoreName(s, name)
+		prefix := e.toBytesV(s, a[1])
+		var keys []BytesV
+		if sl, ok := a[2].(SliceV); ok && sl.ID != 0 {
+			for _, el := range e.sliceElems(s, sl) {
+				keys = append(keys, e.toBytesV(s, el))
+			}
+		}
+		env := s.env()
+		skip := 0
+		if env.MarkStores != nil {
+			skip = env.MarkStores[name]
+		}
+		var conj []string
+		for _, en := range env.L[0].Stores[name] {
+			if en.Pre {
+				continue
+			}
+			if skip > 0 {
+				skip--
+				continue
+			}
+			pm := prefixMatch(prefix, en.Key)
+			if pm == "false" {
+				continue
+			}
+			var any []string
+			for _, k := range keys {
+				any = append(any, keyEq(k, en.Key))
+			}
+			conj = append(conj, tOr(tNot(pm), tOr(any...)))
+		}
+		return ret(f, x, Sym{Bool: true, S: tAnd(conj...)})
 	})
 	reg(vp+"BankWritesSinceMark", func(e *Exec, s *State, f *Frame, x *ssa.Call, a []Val) ([]*State, bool) {
 		env := s.env()
@@ -766,4 +828,14 @@ func (e *Exec) derAddr(mod, key string) string {
 		e.sol.axiom("(= (deraddr_k " + t + ") " + key + ")")
 	}
 	return t
+}
+
+// checkStoreName: stores are named after their module directory (x/<name>); a misspelt name would make a specification vacuous
+func (e *Exec) checkStoreName(s *State, name string) {
+	for k := range s.env().Keepers {
+		if moduleOf(strings.TrimSuffix(strings.TrimPrefix(k, comdexPath+"/"), ".Keeper")) == name || strings.Contains(k, "/x/"+name+"/") {
+			return
+		}
+	}
+	panic("unknown store name " + name + " (stores are named after the module directory x/<name>)")
 }
